@@ -659,10 +659,10 @@ func (b *BaseStore) Sync(ctx context.Context, heads []ipfslog.Entry) error {
 			continue
 		}
 
-		if !h.Defined() || h.GetIdentity() == nil {
+		if !h.Defined() || h.GetIdentity() == nil || h.GetIdentity().Signatures == nil || !h.GetClock().Defined() {
 			// a nil entry behind a non-nil interface (e.g. decoded from a JSON null), or an entry
-			// without author: nothing to verify it against
-			b.Logger().Debug("warning: Given input entry has no identity and was discarded.")
+			// without (signed) author or clock: nothing to verify it against, and it cannot be encoded
+			b.Logger().Debug("warning: Given input entry has no identity or clock and was discarded.")
 			continue
 		}
 
